@@ -19,7 +19,7 @@ import z3
 
 from . import frontend, spec, verify
 from .engine import Arr, Ctx, Exec, NORMAL, Obl, Outcome, RETURN, BREAK, CONTINUE, RAISE, State, Tup, PList, Unsupported, fresh, sel, zbool, zint
-from .loops import scan_modified
+from .loops import scan_modified, havoc
 from .verify import FuncResult, parse_type
 
 
@@ -74,9 +74,10 @@ class Rel:
     def __init__(self, ex, c, fs, relpre):
         self.ex, self.c, self.fs, self.relpre = ex, c, fs, relpre
         self.lemmas = []
+        self.extra = []
         self.nq = 0
 
-    def prove(self, s1, s2, goal, timeout=8000):
+    def prove(self, s1, s2, goal, timeout=int(os.environ.get("HDCV_REL_TIMEOUT_MS", "3000"))):
         """one lockstep query, in a forked child with a hard wall-clock limit (z3's own timeout is not always honoured
         inside quantifier instantiation); anything but `unsat` means: no lemma is carried forward"""
         self.nq += 1
@@ -129,59 +130,73 @@ class Rel:
         self.lemmas.append(o)
 
     def similar(self, s1, s2, name, where):
+        """try to prove that `name` holds the same value in both runs; proved facts are carried forward.  -> bool"""
         v1, v2 = s1.env.get(name), s2.env.get(name)
-        if v1 is None or v2 is None or v1 is v2:
-            return
-        if isinstance(v1, (Tup, PList)) and isinstance(v2, (Tup, PList)) and len(v1.items) == len(v2.items):
-            for i, (x, y) in enumerate(zip(v1.items, v2.items)):
-                self.similar_values(s1, s2, f"{name}.{i}", x, y, where)
-            return
-        self.similar_values(s1, s2, name, v1, v2, where)
+        if v1 is None or v2 is None:
+            return False
+        if v1 is v2:
+            return True
+        return self.similar_values(s1, s2, name, v1, v2, where)
 
-    def similar_values(self, s1, s2, name, v1, v2, where):
-        if isinstance(v1, (Tup, PList)) and isinstance(v2, (Tup, PList)) and len(v1.items) == len(v2.items):
-            for i, (x, y) in enumerate(zip(v1.items, v2.items)):
-                self.similar_values(s1, s2, f"{name}.{i}", x, y, where)
-            return
+    def sim_goal(self, s1, s2, v1, v2):
+        """the similarity formula of two values (None: not comparable, True: trivially the same)"""
         ex = self.ex
+        if isinstance(v1, (Tup, PList)) and isinstance(v2, (Tup, PList)) and len(v1.items) == len(v2.items):
+            gs = [self.sim_goal(s1, s2, x, y) for x, y in zip(v1.items, v2.items)]
+            if any(g is None for g in gs):
+                return None
+            gs = [g for g in gs if g is not True]
+            return z3.And(*gs) if gs else True
         if isinstance(v1, Arr) and isinstance(v2, Arr):
-            if v1.ndim != v2.ndim or v1.dtype != v2.dtype or v1.root().oid == v2.root().oid:
-                return
+            if v1.ndim != v2.ndim or v1.dtype != v2.dtype:
+                return None
+            if v1.root().oid == v2.root().oid and s1.heap[v1.root().oid].eq(s2.heap[v2.root().oid]):
+                return True
             if all(isinstance(n, int) for n in v1.shape) and all(isinstance(n, int) for n in v2.shape) and v1.shape == v2.shape:
                 import itertools
                 cells = list(itertools.product(*[range(n) for n in v1.shape]))
                 if len(cells) <= 8:
                     # small concrete arrays (e.g. the scalar output lopt): ground equalities, no quantifier to instantiate
-                    goal = z3.And(*[ex.read(s1, v1, c, None, check=False) == ex.read(s2, v2, c, None, check=False) for c in cells]) if cells else z3.BoolVal(True)
-                    ok, dt = self.prove(s1, s2, goal)
-                    if ok:
-                        self.record(s1, s2, f"{name}@{where}", goal, dt)
-                        s1.assume(goal, tag="rel:lemma"); s2.assume(goal, tag="rel:lemma")
-                    return
+                    return z3.And(*[ex.read(s1, v1, c, None, check=False) == ex.read(s2, v2, c, None, check=False) for c in cells]) if cells else True
             ks = [z3.Int(f"k!sim{i}") for i in range(v1.ndim)]
             rng = z3.And(*[z3.And(k >= 0, k < zint(n)) for k, n in zip(ks, v1.shape)])
-            shp = z3.And(*[zint(a) == zint(b) for a, b in zip(v1.shape, v2.shape)])
+            shp = z3.And(*[zint(x) == zint(y) for x, y in zip(v1.shape, v2.shape)])
             a1 = ex.read(s1, v1, ks, None, check=False)
             a2 = ex.read(s2, v2, ks, None, check=False)
-            goal = None
             if z3.is_app(a1) and a1.decl().kind() == z3.Z3_OP_SELECT:
                 try:
-                    goal = z3.And(shp, z3.ForAll(ks, z3.Implies(rng, a1 == a2), patterns=[a1]))
+                    return z3.And(shp, z3.ForAll(ks, z3.Implies(rng, a1 == a2), patterns=[a1]))
                 except z3.Z3Exception:
-                    goal = None
-            if goal is None:
-                goal = z3.And(shp, z3.ForAll(ks, z3.Implies(rng, a1 == a2)))
-        elif z3.is_expr(v1) and z3.is_expr(v2) and v1.sort() == v2.sort():
-            if v1.eq(v2):
-                return
-            goal = v1 == v2
-        else:
-            return
+                    pass
+            return z3.And(shp, z3.ForAll(ks, z3.Implies(rng, a1 == a2)))
+        if z3.is_expr(v1) and z3.is_expr(v2) and v1.sort() == v2.sort():
+            return True if v1.eq(v2) else v1 == v2
+        if isinstance(v1, (int, float, bool, str, type(None))) and type(v1) is type(v2):
+            return True if v1 == v2 else None
+        return None
+
+    def similar_values(self, s1, s2, name, v1, v2, where):
+        if isinstance(v1, (Tup, PList)) and isinstance(v2, (Tup, PList)) and len(v1.items) == len(v2.items):
+            oks = [self.similar_values(s1, s2, f"{name}.{i}", x, y, where) for i, (x, y) in enumerate(zip(v1.items, v2.items))]
+            return all(oks)
+        goal = self.sim_goal(s1, s2, v1, v2)
+        if goal is None:
+            return False
+        if goal is True:
+            return True
         ok, dt = self.prove(s1, s2, goal)
         if ok:
             self.record(s1, s2, f"{name}@{where}", goal, dt)
             s1.assume(goal, tag="rel:lemma")
             s2.assume(goal, tag="rel:lemma")
+        elif os.environ.get("HDCV_REL_TRACE"):
+            print(f"[rel]   not shown similar: {name}@{where}", flush=True)
+        return ok
+
+    def obligation(self, s1, s2, kind, name, goal):
+        """an obligation that is not decided on the spot: discharged by the portfolio with everything else; assumed to continue"""
+        o = Obl(f"{self.ex.fname}/{kind}/{name}#{len(self.extra)}", kind, list(self.relpre) + list(s1.pc) + list(s2.pc), goal, model="U")
+        self.extra.append(o)
 
 
 def exec_pair(rel, stmts, s1, s2):
@@ -192,6 +207,10 @@ def exec_pair(rel, stmts, s1, s2):
     for stmt in stmts:
         nxt = []
         for (a, b) in pairs:
+            if isinstance(stmt, ast.For) and rel.c.options.get("rel_lockstep"):
+                for r in lockstep_for(rel, stmt, a, b):
+                    (nxt if r[2] == NORMAL else done).append(r if r[2] != NORMAL else (r[0], r[1]))
+                continue
             if isinstance(stmt, ast.If):
                 c1 = ex.truthy(ex.eval(stmt.test, a))
                 c2 = ex.truthy(ex.eval(stmt.test, b))
@@ -240,10 +259,141 @@ def exec_pair(rel, stmts, s1, s2):
                         nxt.append((x, y))
                     elif o1.kind == RETURN:
                         done.append((x, y, RETURN, o1.value, o2.value))
+                    elif o1.kind in (BREAK, CONTINUE):
+                        done.append((x, y, o1.kind, None, None))
                     else:
                         raise Unsupported(f"outcome {o1.kind} in relational mode")
         pairs = nxt
     return [(a, b, NORMAL, None, None) for (a, b) in pairs] + done
+
+
+def _range_bounds(ex, it, st):
+    if not (isinstance(it, ast.Call) and isinstance(it.func, ast.Name) and it.func.id in ("range", "prange")):
+        raise Unsupported("lockstep loop over something other than range(...)")
+    args = [ex.eval(x, st) for x in it.args]
+    if len(args) == 1:
+        return 0, args[0], 1
+    if len(args) == 2:
+        return args[0], args[1], 1
+    lo, hi, step = args
+    if step not in (1, -1):
+        raise Unsupported("lockstep loop with a step other than +-1")
+    return lo, hi, step
+
+
+def lockstep_for(rel, stmt, a, b):
+    """Both runs execute the loop in lockstep (same bounds, proved).  Relational invariant: every variable the loop modifies that holds
+    the same value in both runs at entry holds the same value at every loop head (checked: initiation by the entry lemmas, preservation
+    as obligations); unary invariants of the sidecar (per run) are established the usual way.  -> list of (s1, s2, kind, v1, v2)"""
+    ex = rel.ex
+    ordn = ex.loop_ids.get(id(stmt))
+    spec_ = rel.c.loops.get(ordn) or {}
+    where = f"L{stmt.lineno}"
+    if not isinstance(stmt.target, ast.Name):
+        raise Unsupported("tuple loop target in lockstep mode")
+    idx = stmt.target.id
+    lo1, hi1, st1 = _range_bounds(ex, stmt.iter, a)
+    lo2, hi2, st2 = _range_bounds(ex, stmt.iter, b)
+    if st1 != st2:
+        raise Unsupported("loop steps differ")
+    same, dt = rel.prove(a, b, z3.And(zint(lo1) == zint(lo2), zint(hi1) == zint(hi2)))
+    if not same:
+        raise Unsupported(f"loop bounds at {where} are not provably the same in the two runs")
+    rel.record(a, b, f"bounds@{where}", z3.And(zint(lo1) == zint(lo2), zint(hi1) == zint(hi2)), dt)
+    step = st1
+    zlo, zhi = zint(lo1), zint(hi1)
+    assigned, stored = scan_modified(stmt.body)
+    assigned.add(idx)
+    for nm in spec_.get("ghost_assigned", []):
+        assigned.add(nm)
+    names = sorted((assigned | stored) - {idx})
+    # ---- initiation: which modified variables agree at entry
+    sim = [nm for nm in names if nm in a.env and nm in b.env and rel.similar(a, b, nm, where + ".entry")]
+    for (st, tag) in ((a, "1"), (b, "2")):
+        for nm, expr in (spec_.get("invariant") or {}).items():
+            saved, had = st.env.get(idx), idx in st.env
+            st.env[idx] = lo1 if st is a else lo2
+            try:
+                rel.obligation(a, b, "inv.init", f"loop{ordn}/{nm}/run{tag}", zbool(ex.spec_eval(expr, st)))
+            finally:
+                if had:
+                    st.env[idx] = saved
+                else:
+                    st.env.pop(idx, None)
+
+    def head(k, tagk):
+        h1, h2 = a.copy(), b.copy()
+        havoc(ex, h1, assigned - {idx}, stored)
+        havoc(ex, h2, assigned - {idx}, stored)
+        for h in (h1, h2):
+            h.assume(k_range(k) if tagk == "iter" else (k == exit_value), tag="range")
+            h.env[idx] = k
+        for nm in sim:
+            g = rel.sim_goal(h1, h2, h1.env[nm], h2.env[nm])
+            if g is not None and g is not True:
+                h1.assume(g, tag="rel:lemma"); h2.assume(g, tag="rel:lemma")
+        for h in (h1, h2):
+            for nm, expr in (spec_.get("invariant") or {}).items():
+                h.assume(zbool(ex.spec_eval(expr, h)), tag=f"inv:{nm}")
+        return h1, h2
+
+    def k_range(k):
+        return z3.And(k >= zlo, k < zhi) if step == 1 else z3.And(k <= zlo, k > zhi)
+
+    exit_value = z3.If(zlo <= zhi, zhi, zlo) if step == 1 else z3.If(zlo >= zhi, zhi, zlo)
+    # ---- arbitrary iteration.  The relational invariant is the largest subset of `sim` that is preserved (Houdini): a variable
+    # whose similarity is not re-established at the end of the body (e.g. a scratch array that legitimately differs at missing
+    # cells) is dropped and the body is analysed again under the weaker invariant; dropping is sound.
+    while True:
+        out = []
+        n_lem, n_ext, n_open = len(rel.lemmas), len(rel.extra), getattr(rel, "nopen", 0)
+        k = fresh(idx, z3.IntSort())
+        h1, h2 = head(k, "iter")
+        failed = set()
+        for (x, y, kind, v1, v2) in exec_pair(rel, stmt.body, h1, h2):
+            if kind in (NORMAL, CONTINUE):
+                nk = k + 1 if step == 1 else k - 1
+                for nm in sim:
+                    g = rel.sim_goal(x, y, x.env[nm], y.env[nm])
+                    if g is None:
+                        failed.add(nm)
+                    elif g is not True:
+                        ok, dt = rel.prove(x, y, g)
+                        if ok:
+                            rel.record(x, y, f"loop{ordn}/same_{nm}@{where}.pres", g, dt)
+                        else:
+                            failed.add(nm)
+                for (st, tag) in ((x, "1"), (y, "2")):
+                    saved = st.env.get(idx)
+                    st.env[idx] = nk
+                    for nm, expr in (spec_.get("invariant") or {}).items():
+                        rel.obligation(x, y, "inv.pres", f"loop{ordn}/{nm}/run{tag}", zbool(ex.spec_eval(expr, st)))
+                    st.env[idx] = saved
+            elif kind == BREAK:
+                out.append((x, y, NORMAL, None, None))
+            else:
+                out.append((x, y, kind, v1, v2))
+        if not failed:
+            break
+        sim = [nm for nm in sim if nm not in failed]
+        del rel.lemmas[n_lem:]
+        del rel.extra[n_ext:]
+        rel.nopen = n_open
+        if os.environ.get("HDCV_REL_TRACE"):
+            print(f"[rel]   loop {ordn} at {where}: similarity of {sorted(failed)} is not preserved, dropped from the relational invariant", flush=True)
+    # ---- exit by exhaustion
+    kx = fresh(idx + "!exit", z3.IntSort())
+    e1, e2 = head(kx, "exit")
+    last = kx - 1 if step == 1 else kx + 1
+    ran = (zlo < zhi) if step == 1 else (zlo > zhi)
+    for (e, st0) in ((e1, a), (e2, b)):
+        prev = st0.env.get(idx)
+        if prev is not None and (isinstance(prev, int) or (z3.is_expr(prev) and prev.sort() == z3.IntSort())):
+            e.env[idx] = z3.If(ran, last, zint(prev))
+        else:
+            e.env[idx] = last
+    out.append((e1, e2, NORMAL, None, None))
+    return out
 
 
 def verify_relational(c):
@@ -255,6 +405,9 @@ def verify_relational(c):
         ctx.options.update({"restrict_valfn": True, "loop_summaries": True, "index_obligations": False, "div_obligations": False,
                             "frame_obligations": False, "asserts_as_obligations": False, "valfn": True})
         res.ctx = ctx
+        for nm in c.options.get("extra_axioms", []):
+            ctx.axioms.append(ctx.fm.extra_axiom(nm))
+            ctx.assumed.add(f"float model U, extra axiom `{nm}` (see fmodel.ModelU.extra_axiom)")
         ex = Exec(ctx, fs)
         shared, dims = {}, {}
         st1 = _entry(ex, c, fs, "1", shared, dims)
@@ -299,7 +452,7 @@ def verify_relational(c):
             npair += 1
         if npair == 0:
             raise Unsupported("no pair of return paths")
-        ctx.obls = rel.lemmas + ctx.obls
+        ctx.obls = rel.lemmas + rel.extra + ctx.obls
         ctx.obls.append(Obl(f"{c.short}/vacuity/requires", "vacuity", list(relpre), z3.BoolVal(True), expect="sat", model="U"))
         ctx.notes.append(f"relational mode: {rel.nq} lockstep queries, {len(rel.lemmas)} lemmas carried forward")
     except frontend.BindingFailure as exc:
